@@ -80,7 +80,9 @@ def _observe(case, K, objs, ids):
                     ws.append([o_idx, q, -1, '?', None, False, list(w.parameter_names)])
                     continue
                 owner = ids.get(id(kw['function'].__self__), -1)
-                ws.append([o_idx, q, owner, w.fn._watcher_name, kw['changed'], kw['callback'] is not None,
+                ch = kw['changed']
+                ch = [[k, v] for k, v in ch.items()] if isinstance(ch, dict) else ch
+                ws.append([o_idx, q, owner, w.fn._watcher_name, ch, kw['callback'] is not None,
                            list(w.parameter_names)])
         for m in c['methods']:
             dyn.append([o_idx, m['name'], [[ids.get(id(w.inst), -1), list(w.parameter_names)]
